@@ -428,6 +428,14 @@ def rule_tracker_lifecycle(ctx, crate, rule="R-TRACKER-LIFECYCLE"):
                           "ProgressTracker::tick is called before the estimator is updated", cfg)
                 draws = x.calls(r"state::BarState::draw")
                 ok = ok and bool(draws) and all(d.bb in x.reach_after(c.bb) and c.bb not in x.reach_after(d.bb) for d in draws)
+                # "ticked ... together with the bar": whenever the bar is updated and redrawn, finished or not - the loop over the
+                # trackers is entered on every path to the draw (a finished bar still redraws on every update)
+                loop_ = {c.bb} | {y for y in x.reach_after(c.bb) if c.bb in x.reach_after(y)}
+                heads = [k.bb for k in x.calls(r"std::iter::Iterator::next") if k.bb in loop_]
+                uncond = bool(heads) and all(not (x.reach([0], avoid=heads) & {d.bb for d in draws}) for _ in [0])
+                ctx.check(uncond, rule, "tick-unconditional", x.name, c.loc(), "every update that redraws the bar ticks the custom trackers first",
+                          "the trackers are ticked only under a condition on the bar's state (e.g. while it is not finished) although the bar is redrawn on every update: "
+                          "after abandon()/finish() a set_length/set_message repaints built-in keys with current values next to a custom key that still shows its last tick", cfg)
         ctx.check(ok, rule, "%s-all-trackers" % meth, x.name, K.fn_loc(x),
                   "every tracker in format_map is %s with the bar's state%s" % ("ticked before the draw" if meth == "tick" else "reset", "" if not cond else " on Reset::All"),
                   "custom trackers are not all %s" % ("ticked before each draw" if meth == "tick" else "reset together with the bar"), cfg)
